@@ -614,7 +614,6 @@ theorem Wp.adv' {lr0 lr : LR} {n : Nat} (e : Ext lr0 lr) (hb : Base b lr0)
     (ho : OnLine b lr.lineStart lr.line (lr0.v.pos + n)) :
     Wp E (PM.advance n) lr (fun _ lr1 => Inv b lr1 ∧ lr1.v.pos = lr0.v.pos + n ∧
       lr1.line = lr.line ∧ lr1.lineStart = lr.lineStart ∧ lr1.v.mark = lr0.v.mark) := by
-  have hb1 := hb.ext (Ext.mk e.rest e.pos e.mark rfl rfl e.peeked : Ext lr0 { lr0 with v := lr.v })
   have hr := e.rest; have hps := e.pos
   refine Wp.advance (demanded_ge (by rw [hr]; exact hn) (by rw [hps]; exact hp)) ?_
   refine ⟨{ size := hb.size, rest := ?_, pos_le := ?_, online := ?_ }, ?_, rfl, rfl, e.mark⟩
@@ -638,12 +637,23 @@ theorem Wp.adv {lr0 lr : LR} {n : Nat} (e : Ext lr0 lr) (h : Inv b lr0)
   intro _ lr1 ⟨i1, p1, l1, s1, m1⟩
   exact ⟨i1, ⟨by omega, l1.trans e.line, s1.trans e.lineStart, m1⟩, p1⟩
 
-/-- `line_at_offset(off)` behind a scanned line end: no overflow; the new line start is right. -/
+/-- The state after `line_at_offset(off)`. -/
+def nextLine (lr : LR) (off : Nat) : LR :=
+  { lr with line := lr.line + 1, lineStart := lr.v.pos + off }
+
+@[simp] theorem nextLine_v (lr : LR) (off : Nat) : (nextLine lr off).v = lr.v := rfl
+@[simp] theorem nextLine_line (lr : LR) (off : Nat) : (nextLine lr off).line = lr.line + 1 := rfl
+@[simp] theorem nextLine_lineStart (lr : LR) (off : Nat) :
+    (nextLine lr off).lineStart = lr.v.pos + off := rfl
+
+/-- `line_at_offset(off)` behind a scanned line end: no overflow; the new line start is right.
+The base state becomes `nextLine lr0 off`. -/
 theorem Wp.lao {lr0 lr : LR} {off : Nat} (e : Ext lr0 lr) (h : Inv b lr0) (h0 : 0 < off)
     (hle : off ≤ lr0.v.rest.length) (hno : AllAt (· ≠ 10) lr0.v.rest 0 (off - 1))
     (hend : lr0.v.rest[off - 1]? = some 10 ∨ off = lr0.v.rest.length) :
-    Wp E (PM.lineAtOffset off) lr (fun _ lr1 => Ext lr0 { lr1 with line := lr0.line, lineStart := lr0.lineStart } ∧
-      lr1.v = lr.v ∧ OnLine b lr1.lineStart lr1.line (lr0.v.pos + off)) := by
+    Wp E (PM.lineAtOffset off) lr (fun _ lr1 => Ext (nextLine lr0 off) lr1 ∧
+      lr.v.peeked ≤ lr1.v.peeked ∧ Base b (nextLine lr0 off) ∧
+      OnLine b (lr0.v.pos + off) (lr0.line + 1) (lr0.v.pos + off)) := by
   have hl := h.rest_length
   have hpl := h.pos_le
   have hsz := h.size
@@ -651,10 +661,12 @@ theorem Wp.lao {lr0 lr : LR} {off : Nat} (e : Ext lr0 lr) (h : Inv b lr0) (h0 : 
   unfold SizeOK at hsz
   have hps := e.pos; have hli := e.line
   refine Wp.lineAtOffset (by omega) (by omega) ?_
-  refine ⟨⟨e.rest, e.pos, e.mark, rfl, rfl, e.peeked⟩, rfl, ?_⟩
+  refine ⟨⟨e.rest, e.pos, e.mark, ?_, ?_, e.peeked⟩, Nat.le_refl _, ⟨h.size, h.rest, h.pos_le⟩, ?_⟩
+  · show lr.line + 1 = lr0.line + 1
+    rw [hli]
+  · show lr.v.pos + off = lr0.v.pos + off
+    rw [hps]
   have hext := OnLine.extend h.toBase (i := 0) (j := off - 1) h.online (Nat.zero_le _) (by omega) hno
-  show OnLine b (lr.v.pos + off) (lr.line + 1) (lr0.v.pos + off)
-  rw [hps, hli]
   refine ⟨Nat.le_refl _, by omega, fun i h1 h2 => by omega, ?_⟩
   apply lineAt_step b lr0.lineStart lr0.line _ h.online.lineAt
   · have := h.online.le; omega
